@@ -1,8 +1,6 @@
 package mpx
 
 import (
-	"time"
-
 	"github.com/basecomplextech/baselibrary/async"
 	"github.com/basecomplextech/baselibrary/bin"
 	"github.com/basecomplextech/baselibrary/status"
@@ -130,33 +128,6 @@ func openChannelOther(r *zzConnEnv) *channel {
 	st.opened.Store(true)
 	r.channels.Set(id, ch)
 	return ch
-}
-
-// pendingChannel returns the channel of the first handler the connection asked to start.
-func (w *zzWorkers) pendingChannel() *channel {
-	if !zzverif.Symbolic() {
-		for i := 0; i < 200; i++ {
-			w.handler.mu.Lock()
-			n := len(w.handler.parked)
-			var c Channel
-			if n > 0 {
-				c = w.handler.parked[0]
-			}
-			w.handler.mu.Unlock()
-			if n > 0 {
-				return c.(*channel)
-			}
-			time.Sleep(time.Millisecond)
-		}
-		return nil
-	}
-	if len(w.pending) == 0 {
-		return nil
-	}
-	if h, ok := w.pending[0].(*channelHandler); ok {
-		return h.ch
-	}
-	return nil
 }
 
 // zzFullQueue refuses the first `refusals` writes (queue full) although its WriteWait hint fires.
